@@ -273,6 +273,10 @@ func init() {
 			// a client that has stopped reading: the broker's writer is blocked when the connection has to end
 			return &sessCase{Stalled: 1}
 		}
+		if i%30 == 11 {
+			// a slow reader with a backlog on its way is taken over: it must still be TOLD (a DISCONNECT it can decode)
+			return &sessCase{Stalled: 4}
+		}
 		c := &sessCase{Preempt: r.Chance(65)}
 		v5mask := r.Intn(4)
 		timed := i%4 == 3
